@@ -36,7 +36,10 @@ TRUSTED = ["model of Python's insertion-ordered dict as an association list and 
            "str.lower() modelled per code point: exact for U+0000..U+012F, identity above (generators keep header names inside "
            "the set where that is what CPython does)",
            "str.translate with a dict table, re.fullmatch('[...]+'), urllib.parse.quote, str.encode('utf-8'/'latin-1'/'ascii') "
-           "as transcribed in C13/Model.v and Lib/Utf8.v, validated by this correspondence"]
+           "as transcribed in C13/Model.v and Lib/Utf8.v, validated by this correspondence",
+           "source-level tie for MutableHeaders.__setitem__: tools/py2coq.py (Python ast -> Gallina, fail-closed; self._dict "
+           "declared as a str-keyed dict, str.lower left abstract) and coq/theories/Lib/PyStr.v (compared with the interpreter's "
+           "str methods and dict on every run)"]
 ASSUMPTIONS = ["names, values and targets are str (other types raise TypeError/AttributeError before anything is stored)",
                "the initial mapping given to the constructor is clean (the constructor does not check: outside the stated scope)",
                "cookie attributes (path, domain, samesite) are clean text chosen by the application, expires is not set "
@@ -700,6 +703,23 @@ def shrink(case):
             yield ["redir", case[1], case[2][:i] + case[2][i + 1:]]
         for s in _shorter(case[1]):
             yield ["redir", s, case[2]]
+
+
+# ---------------------------------------------------------------- the source-level tie (tools/py2coq.py)
+
+
+def extra_obligations(tier):
+    """MutableHeaders.__setitem__ is translated to Gallina from the source in BAIZE_REPO as it is now (self._dict a dict
+    that is threaded and returned, str.lower an argument), and coqc re-checks C13/Translated.v (translated function =
+    C13.Model.setitem for every key, value and mapping: same mapping afterwards, ValueError exactly when the model says
+    so) against the fresh definition; the PyStr functions the translation is made of are compared with the interpreter's
+    own str methods and dict."""
+    import importlib.util
+    import os
+    spec = importlib.util.spec_from_file_location("py2coq", os.path.join(core.VERIF, "tools", "py2coq.py"))
+    py2coq = importlib.util.module_from_spec(spec)
+    spec.loader.exec_module(py2coq)
+    return py2coq.obligations(PID, core.REPO, core.VERIF)
 
 
 if __name__ == "__main__":
